@@ -97,22 +97,38 @@ class Run:
 
     # ------------------------------------------------------------------------------------------
     def verus_unit(self, tmpl: str) -> dict:
+        """Generate + verify one unit. If Verus REJECTS the generated file (a compile-level error, e.g. an extracted fragment now
+        refers to a local the wrapper does not declare) the offending extraction block is left out and the rest of the unit is
+        still decided; the left-out block's obligations are reported as undecided (exit 2) for the properties they serve only."""
         unit = tmpl[:-4]
         out = {"unit": unit, "ok": False, "reason": "", "gen": None, "main": None, "vac": None}
-        try:
-            g = vu.generate(os.path.join(VERIF, "contracts", tmpl), self.snap)
-        except ExtractError as e:
-            out["reason"] = f"extraction: {e}"
-            return out
+        exclude: dict = {}
         d = os.path.join(self.scratch, "verus", unit)
         os.makedirs(d, exist_ok=True)
         mp, vp = os.path.join(d, unit + ".rs"), os.path.join(d, unit + "_vac.rs")
-        open(mp, "w").write(g.main_text)
+        for attempt in range(8):
+            try:
+                g = vu.generate(os.path.join(VERIF, "contracts", tmpl), self.snap, exclude)
+            except ExtractError as e:
+                out["reason"] = f"extraction: {e}"
+                return out
+            open(mp, "w").write(g.main_text)
+            main = vu.run_verus(mp, None, 900)
+            if main.ok or not main.diags:
+                break
+            # rejected: which extraction blocks do the rejecting diagnostics point into?
+            bad = {}
+            for dg in main.diags:
+                if any(dg["message"].startswith(x) for x in vu.DEFINITE) or "rlimit" in dg["message"]:
+                    continue
+                for (bkey, lo, hi) in g.blocks:
+                    if any(ln and lo <= ln <= hi for ln in dg["lines"]):
+                        bad[bkey] = "verus cannot read this block any more: " + dg["message"][:200]
+            if not bad or all(k in exclude for k in bad):
+                break
+            exclude.update(bad)
         open(vp, "w").write(g.vac_text)
-        with cf.ThreadPoolExecutor(2) as ex:
-            fm = ex.submit(vu.run_verus, mp, None, 900)
-            fv = ex.submit(vu.run_verus, vp, 2, 300)
-            out["main"], out["vac"] = fm.result(), fv.result()
+        out["main"], out["vac"] = main, vu.run_verus(vp, 2, 300)
         out["gen"] = g
         out["ok"] = True
         return out
@@ -164,6 +180,11 @@ class Run:
                 continue
             g, main, vac = vr["gen"], vr["main"], vr["vac"]
             self.cmds.append(main.cmd.replace(self.scratch, "$SCRATCH"))
+            for (bkey, reason, oids, bprops) in g.excluded:
+                if prop in bprops:
+                    self.undecided.append(f"verus unit {unit}: block `{bkey}` left out ({reason}); obligations not decided: {', '.join(oids[:6])}")
+                    for oid in oids:
+                        self.oblig_rows.append({"id": oid, "backend": "verus", "kind": "ensures", "function": bkey, "clause": "(block could not be read)", "status": "undecided"})
             for a in g.assumptions:
                 self.assumptions.add(f"[{unit}] {a}")
             for r in g.fired_rules:
